@@ -309,7 +309,14 @@ func runSyncCase(seed int64, thorough bool) (*syncInput, Res) {
 		// --- diverge -------------------------------------------------------------------------------
 		in.Action = []string{"fetch", "fetch", "push", "push", "pull", "merge"}[r.Intn(6)]
 		in.Relation = []string{"remote-ahead", "local-ahead", "diverged", "equal", "unrelated"}[r.Intn(5)]
-		if in.Action == "fetch" && r.Intn(2) == 0 {
+		revertFirst := false
+		if in.ShallowClone && r.Intn(2) == 0 {
+			// a shallow clone fetching new history whose tip re-uses the table of a commit that is
+			// shallow locally (a revert): the sender must not take that table for present
+			in.Action = []string{"fetch", "pull"}[r.Intn(2)]
+			in.Relation = "remote-ahead"
+			revertFirst = true
+		} else if in.Action == "fetch" && r.Intn(2) == 0 {
 			// what matters to a fetch is how the remote branch moved relative to the remote-tracking ref
 			in.Relation = []string{"remote-ahead", "unrelated", "rewound"}[r.Intn(3)]
 		}
@@ -342,6 +349,9 @@ func runSyncCase(seed int64, thorough bool) (*syncInput, Res) {
 			if r.Intn(3) == 0 {
 				// a revert: the new commit re-uses the table of an earlier commit
 				t = baseTables[r.Intn(len(baseTables))]
+			}
+			if revertFirst && i == nRemote-1 {
+				t = baseTables[r.Intn(len(baseTables)-1)] // the table of a commit that is shallow locally
 			}
 			if err := opCommit(t.CSV(0), t.PK, 1, "main")(sdb, srs); err != nil {
 				return Err("server-commit2")
